@@ -144,7 +144,10 @@ func TestVerifC04(t *testing.T) {
 	si, sn := vShard()
 	// per-replica situation classes
 	classes := []string{"member_ok", "member_dead", "member_stopped", "member_diverged", "member_dubious", "member_ioerr",
-		"joiner_ok", "joiner_lag_progress", "joiner_lag_stalled", "joiner_dead", "marked_member", "member_isolated"}
+		"joiner_ok", "joiner_lag_progress", "joiner_lag_stalled", "joiner_dead", "marked_member", "member_isolated",
+		// a listed member that is marked for recovery AND unreachable (the dead ex-master of a failover; a marked host whose
+		// ping is dubious): the failure timers must not bring it back into the list
+		"marked_dead", "marked_dubious"}
 	type base struct {
 		n     int
 		cls   []string
@@ -187,6 +190,12 @@ func TestVerifC04(t *testing.T) {
 	// pinned first: "swap" situations (one member leaves while one host joins, so the list keeps its size) - the
 	// eviction guard must not be fooled by the unchanged length
 	var pinned []base
+	// a listed member that turns out to be a second master (stand-alone, writable): the repair marks it for recovery,
+	// and the mark must not appear while the host is still in the published list
+	pinned = append(pinned, base{3, []string{"member_ok", "member_stale_master"}, 1, false, false}, base{4, []string{"member_stale_master", "member_ok", "member_ok"}, 1, true, false})
+	for _, mk := range []string{"marked_dead", "marked_dubious"} {
+		pinned = append(pinned, base{3, []string{"member_ok", mk}, 1, false, false}, base{4, []string{"member_ok", mk, "member_ok"}, 1, true, false})
+	}
 	for _, ev := range []string{"member_dead", "member_stopped", "member_ioerr"} {
 		for _, mf := range []bool{false, true} {
 			pinned = append(pinned, base{4, []string{"member_ok", ev, "joiner_ok"}, 1, mf, false})
@@ -223,7 +232,7 @@ func TestVerifC04(t *testing.T) {
 		// does not take the master's health record away); fall back to the master's host
 		mgr := "h1"
 		for i, c := range b.cls {
-			if c != "member_dead" && c != "joiner_dead" && c != "member_isolated" && c != "marked_member" {
+			if c != "member_dead" && c != "joiner_dead" && c != "member_isolated" && !strings.HasPrefix(c, "marked_") && c != "member_stale_master" {
 				mgr = fmt.Sprintf("h%d", i+2)
 				break
 			}
@@ -243,7 +252,7 @@ func TestVerifC04(t *testing.T) {
 			for i, c := range b.cls {
 				h := fmt.Sprintf("h%d", i+2)
 				x := s.W.Hosts[h]
-				member := strings.HasPrefix(c, "member_") || c == "marked_member"
+				member := strings.HasPrefix(c, "member_") || strings.HasPrefix(c, "marked_")
 				if member {
 					list = append(list, h)
 					x.SsS, x.SsSAct = true, true
@@ -294,13 +303,24 @@ func TestVerifC04(t *testing.T) {
 					s.W.SetNet(h, "isolated")
 				case "marked_member":
 					s.Z.Put(vNS+"/"+pathRecovery+"/"+h, "null")
+				case "member_stale_master":
+					s.W.Lock()
+					x := s.W.Hosts[h]
+					x.Src, x.IO, x.SQL, x.RO = "", "No", false, "rw"
+					s.W.Unlock()
+				case "marked_dead":
+					s.Z.Put(vNS+"/"+pathRecovery+"/"+h, "null")
+					s.W.Crash(h)
+				case "marked_dubious":
+					s.Z.Put(vNS+"/"+pathRecovery+"/"+h, "null")
+					s.W.SetNet(h, "dubious")
 				}
 			}
 		}
 		noInst := map[string]bool{}
 		for i, c := range b.cls {
 			// a marked host's own mysync would clear the mark at once: it is kept down here
-			if c == "member_dead" || c == "member_dead_long" || c == "joiner_dead" || c == "member_isolated" || c == "marked_member" {
+			if c == "member_dead" || c == "member_dead_long" || c == "joiner_dead" || c == "member_isolated" || strings.HasPrefix(c, "marked_") || c == "member_stale_master" {
 				noInst[fmt.Sprintf("h%d", i+2)] = true
 			}
 		}
@@ -533,6 +553,15 @@ func c04Observe(o *c04Obs, ev *verifsim.TraceEvent, worldLocked bool, mf bool) {
 			} else {
 				active = o.lastActive
 			}
+		}
+		if ev.K == "zk" && ev.Op == "Create" && ev.Res == "ok" && strings.HasPrefix(ev.At, pathRecovery+"/") {
+			// the instant a host is marked for recovery: it must be out of the published list already
+			cur := o.lastActive
+			if cur == nil {
+				cur = r.Active0
+			}
+			o.rows = append(o.rows, map[string]any{"kind": "markwrite", "scn": o.sc.ID, "by": ev.By, "host": strings.TrimPrefix(ev.At, pathRecovery+"/"),
+				"active": nn(cur), "master": r.Master})
 		}
 		ab := c04AB(hosts, o.ha, r.Master, active, o.w)
 		if o.prevAB[ev.By] && !ab && r.Flip == "" {
